@@ -1,8 +1,9 @@
 import Afkak.Monitor.C05
 /-!
-# C05 — full-strength statements that are not (yet) proved
+# C05 — full-strength statements
 
-Statements, not theorems; listed in the `OPEN_STATEMENTS` block of `AfkakProps/C05.lean`.
+Statements, not theorems.  Those named `…_stmt` are PROVED in `AfkakProps/C05.lean` (the theorem of
+the same name without the suffix); the others are listed in its `OPEN_STATEMENTS` block.
 The implementation is checked against each of them on every run through `Afkak.Monitor.C05`.
 -/
 namespace Afkak.Props.C05
@@ -13,11 +14,11 @@ set_option synthInstance.maxSize 100000
 /-- the end state of a generator-style decoder that yielded everything and was exhausted normally -/
 def finished {α : Type} (g : G α) (items : List α) : Prop := g.1 = items ∧ ∃ cur, g.2 = .ok cur
 
-def C05_produce_v0_roundtrip : Prop :=
+def C05_produce_v0_roundtrip_stmt : Prop :=
   ∀ v e, expectedProduceV0 v = some (e, true) →
     ∃ g, decodeProduceResponse (Spec.produceResponseV0.enc v) 0 = .ok g ∧ finished g e
 
-def C05_produce_v2_roundtrip : Prop :=
+def C05_produce_v2_roundtrip_stmt : Prop :=
   ∀ v e, expectedProduceV2 v = some (e, true) →
     ∃ g, decodeProduceResponse (Spec.produceResponseV2.enc v) 2 = .ok g ∧ finished g e
 
@@ -49,28 +50,28 @@ def C05_fetch_v2_roundtrip : Prop :=
     expectedFetchV2 ext.crc (fun b => (ext.gunzip (some b)).toOption) (depth + 1) v = some (e, true) →
     finished (decodeFetchResponse ext (depth + 1) ((Spec.fetchResponseV2 ext.crc).enc v) 2) e
 
-def C05_list_offsets_roundtrip : Prop :=
+def C05_list_offsets_roundtrip_stmt : Prop :=
   ∀ v e, expectedListOffsets v = some (e, true) → finished (decodeOffsetResponse (Spec.listOffsetsResponse.enc v)) e
 
 def C05_metadata_roundtrip : Prop :=
   ∀ v e, expectedMetadata v = some e → decodeMetadataResponse (Spec.metadataResponse.enc v) = .ok e
 
-def C05_offset_commit_roundtrip : Prop :=
+def C05_offset_commit_roundtrip_stmt : Prop :=
   ∀ v e, expectedOffsetCommit v = some (e, true) → finished (decodeOffsetCommitResponse (Spec.offsetCommitResponse.enc v)) e
 
-def C05_offset_fetch_roundtrip : Prop :=
+def C05_offset_fetch_roundtrip_stmt : Prop :=
   ∀ v e, expectedOffsetFetch v = some (e, true) → finished (decodeOffsetFetchResponse (Spec.offsetFetchResponse.enc v)) e
 
-def C05_join_group_roundtrip : Prop :=
+def C05_join_group_roundtrip_stmt : Prop :=
   ∀ v e, expectedJoinGroup v = some e → decodeJoinGroupResponse (Spec.joinGroupResponse.enc v) = .ok e
 
-def C05_subscription_roundtrip : Prop :=
+def C05_subscription_roundtrip_stmt : Prop :=
   ∀ v e, expectedSubscription v = some e → decodeJoinGroupProtocolMetadata (Spec.subscription.enc v) = .ok e
 
 def C05_assignment_roundtrip : Prop :=
   ∀ v e, expectedAssignment v = some e → decodeSyncGroupMemberAssignment (Spec.assignment.enc v) = .ok e
 
-def C05_api_versions_roundtrip : Prop :=
+def C05_api_versions_roundtrip_stmt : Prop :=
   ∀ v e, expectedApiVersions v = some e → decodeApiVersionsResponse (Spec.apiVersionsResponse.enc v) = .ok e
 
 end Afkak.Props.C05
